@@ -6,8 +6,10 @@ import sys
 import time
 
 VERIF = os.path.dirname(os.path.dirname(os.path.abspath(__file__)))
-EVID = os.path.join(VERIF, "evidence")
-REPLAYS = os.path.join(VERIF, "replays")
+# (the two directories can be redirected, e.g. while a seeded change is being evaluated, so that the committed
+#  evidence of the unchanged tree is not overwritten)
+EVID = os.environ.get("VERIF_EVIDENCE_DIR") or os.path.join(VERIF, "evidence")
+REPLAYS = os.environ.get("VERIF_REPLAY_DIR") or os.path.join(VERIF, "replays")
 KNOWN = os.path.join(VERIF, "known_findings.json")
 
 
@@ -74,6 +76,18 @@ class Ctx:
 
     def nontrivial(self, key):
         self.distinct.add(key if isinstance(key, (str, int, tuple)) else json.dumps(key, sort_keys=True))
+
+    def selftest(self, fn, *args):
+        """run a binding self-test; a self-test that cannot run because the tree under test is already
+        violating the property (its baseline trace is rejected) must not mask the verdict"""
+        from harness.tlc import MachineryError
+        try:
+            self.extra["binding_selftest"] = fn(*args)
+        except MachineryError as e:
+            if self.violations or self.known_hit:
+                self.extra["binding_selftest"] = {"ran": False, "why": "baseline rejected on a tree that violates the property: %s" % str(e)[:300]}
+            else:
+                raise
 
     # ---- verdicts ----
     def violation(self, desc, detail="", case=None):
